@@ -5,32 +5,38 @@ package main
 var metas = map[string]*meta{
 	"C07": {
 		ID: "C07", Level: "exploration",
-		Parts: []part{{Name: "seq", Bin: "std", Shards: 16}},
-		Rule: "every sequence of store operations (22-op alphabet: add to 3 mailboxes incl. two sharing a hash bucket/directory and one with special characters; get/seen/remove by 1st/2nd id ever issued, 'latest', unknown and empty id; purge) up to the full-tree depth, then explicit-state search keyed on the whole abstract store state up to the max depth; on mem and file; after the last op every mailbox listing, the visit and the return value are compared with the ordered-mailbox model. A case is non-trivial when its last operation succeeded on / changed a live message; distinct by construction (distinct sequences).",
+		Parts:       []part{{Name: "seq", Bin: "std", Shards: 16}, {Name: "long", Bin: "std", Shards: 4}},
+		Rule:        "long: from a mailbox pre-filled with 11 messages (ids of different widths), every pair of operations over get/remove/seen by 1st,2nd,9th,10th,11th,latest,oldest + add + purge, oracle on every step from the 11th add on. seq: every sequence of store operations (22-op alphabet: add to 3 mailboxes incl. two sharing a hash bucket/directory and one with special characters; get/seen/remove by 1st/2nd id ever issued, 'latest', unknown and empty id; purge) up to the full-tree depth, then explicit-state search keyed on the whole abstract store state up to the max depth; on mem and file; after the last op every mailbox listing, the visit and the return value are compared with the ordered-mailbox model. A case is non-trivial when its last operation succeeded on / changed a live message; distinct by construction (distinct sequences).",
 		Assumptions: []string{"reference model model.Store is the specification of storage.Store", "mem ≡ file follows from both being equal to the same deterministic model on identical histories (ids abstracted to arrival ordinals)", "I/O errors are outside the model"},
 	},
 	"C08": {
 		ID: "C08", Level: "exploration",
-		Parts: []part{{Name: "seq", Bin: "std", Shards: 16}},
-		Rule: "for every configuration cap∈{0,1,2,3} × maxkb∈{0,1,2} on mem and cap∈{0,1,2,3} on file: every sequence over add(mailbox∈{x,y}, size∈{300,600,1100,2100}B), remove(mailbox, oldest|newest), purge(mailbox) up to the full-tree depth, then explicit-state search (key = abstract store state + number of evictions/removals so far as a proxy for hidden accounting state) to the max depth; after the last op all listings and the visit must equal the eviction model (cap: newest kept; size: strictly oldest-first across the store, only until the limit is met) and a just-added message that the model retains must be retrievable by its id. Non-trivial = last op changed the store; distinct sequences.",
+		Parts:       []part{{Name: "seq", Bin: "std", Shards: 16}},
+		Rule:        "for every configuration cap∈{0,1,2,3} × maxkb∈{0,1,2} on mem and cap∈{0,1,2,3} on file: every sequence over add(mailbox∈{x,y}, size∈{300,600,1100,2100}B), remove(mailbox, oldest|newest), purge(mailbox) up to the full-tree depth, then explicit-state search (key = abstract store state + number of evictions/removals so far as a proxy for hidden accounting state) to the max depth; after the last op all listings and the visit must equal the eviction model (cap: newest kept; size: strictly oldest-first across the store, only until the limit is met) and a just-added message that the model retains must be retrievable by its id. Non-trivial = last op changed the store; distinct sequences.",
 		Assumptions: []string{"size-limit eviction is complete when AddMessage returns (the mem store waits for its enforcer)", "a crash of the enforcer goroutine crashes the worker process and is attributed to the journalled case"},
 	},
 	"C10": {
 		ID: "C10", Level: "exploration",
-		Parts: []part{{Name: "seq", Bin: "std", Shards: 16}},
-		Rule: "C07's 22-op alphabet plus `reopen` (drop the Store, file.New on the same path) and `retention-scan` on the file store with cap∈{0,2}: all sequences to the full-tree depth, explicit-state search beyond; reopen is the identity on the model; after every last op the concrete ids, order, metadata, seen flags, sizes, dates and bytes of every mailbox (by name and through VisitMailboxes) must equal the model's. Non-trivial = last op changed state or was a reopen; distinct sequences.",
+		Parts:       []part{{Name: "seq", Bin: "std", Shards: 16}},
+		Rule:        "C07's 22-op alphabet plus `reopen` (drop the Store, file.New on the same path) and `retention-scan` on the file store with cap∈{0,2}: all sequences to the full-tree depth, explicit-state search beyond; reopen is the identity on the model; after every last op the concrete ids, order, metadata, seen flags, sizes, dates and bytes of every mailbox (by name and through VisitMailboxes) must equal the model's. Non-trivial = last op changed state or was a reopen; distinct sequences.",
 		Assumptions: []string{"restart = constructing a new file.Store on the same directory (the store keeps no state outside it except the process-global id counter)"},
 	},
 	"C01": {
 		ID: "C01", Level: "exploration",
-		Parts: []part{{Name: "seq", Bin: "std", Shards: 16}},
-		Rule: "every connection script: transaction 1 = MAIL + every sequence (with repetition) of ≤2 (quick) / ≤3 (thorough) RCPTs from {a@keep, A+x@keep (same mailbox), b@keep, a@drop (discard domain), b@rej (rejected domain), malformed} + one of 8 terminators (DATA with/without headers, RSET, EHLO, nested MAIL, QUIT, disconnect, DATA then disconnect before the final dot), followed by a second (and in thorough a third) transaction from a reduced set; × naming∈{local,full,domain} × store policy∈{store-default+discard list, discard-default+store list} × backend∈{mem,file}. After every transaction end ALL mailboxes (and a visit for stray ones) are compared with the model: one new message per accepted, storable recipient occurrence with the right sender/recipients/subject/size/content, everything else unchanged. Non-trivial = at least one message was delivered; distinct scripts.",
+		Parts:       []part{{Name: "seq", Bin: "std", Shards: 16}},
+		Rule:        "every connection script: transaction 1 = MAIL + every sequence (with repetition) of ≤2 (quick) / ≤3 (thorough) RCPTs from {a@keep, A+x@keep (same mailbox), b@keep, a@drop (discard domain), b@rej (rejected domain), malformed} + one of 8 terminators (DATA with/without headers, RSET, EHLO, nested MAIL, QUIT, disconnect, DATA then disconnect before the final dot), followed by a second (and in thorough a third) transaction from a reduced set; × naming∈{local,full,domain} × store policy∈{store-default+discard list, discard-default+store list} × backend∈{mem,file}. After every transaction end ALL mailboxes (and a visit for stray ones) are compared with the model: one new message per accepted, storable recipient occurrence with the right sender/recipients/subject/size/content, everything else unchanged. Non-trivial = at least one message was delivered; distinct scripts.",
 		Assumptions: []string{"recipient acceptance is read off the reply class of each RCPT", "mailbox names for the plain addresses of this pool follow model.SimpleMailbox (documented rule)", "From/To headers are generated equal to the envelope so the expected metadata is unambiguous"},
 	},
 	"C03": {
 		ID: "C03", Level: "exploration",
-		Parts: []part{{Name: "seq", Bin: "syn", Shards: 16}, {Name: "cut", Bin: "syn", Shards: 8}},
-		Rule: "seq: every sequence of command lines over a 26-element alphabet (HELO/EHLO variants, MAIL variants incl. SIZE and <>, RCPT variants incl. rejected and malformed, DATA, DATA with argument, a 4-line message unit ending in '.', RSET, NOOP, VRFY, QUIT, AUTH PLAIN, AUTH LOGIN, STARTTLS, empty line, short garbage, a 10000-byte line, binary bytes) to the full-tree depth, then explicit-state search keyed on (envelope model state folded from the observed replies, store listing, last command) to the max depth; each session runs in a testing/synctest bubble so 'no reply', 'extra reply' and 'session never ends' are decided by exact quiescence; oracle: one well-formed reply per command line, MAIL/RCPT/DATA gating, store = deliveries to the recipients accepted since the latest accepted MAIL. cut: see clause. Non-trivial = last command was accepted (2xx) or delivered; distinct sequences.",
+		Parts:       []part{{Name: "seq", Bin: "syn", Shards: 16}, {Name: "cut", Bin: "syn", Shards: 8}},
+		Rule:        "seq: every sequence of command lines over a 26-element alphabet (HELO/EHLO variants, MAIL variants incl. SIZE and <>, RCPT variants incl. rejected and malformed, DATA, DATA with argument, a 4-line message unit ending in '.', RSET, NOOP, VRFY, QUIT, AUTH PLAIN, AUTH LOGIN, STARTTLS, empty line, short garbage, a 10000-byte line, binary bytes) to the full-tree depth, then explicit-state search keyed on (envelope model state folded from the observed replies, store listing, last command) to the max depth; each session runs in a testing/synctest bubble so 'no reply', 'extra reply' and 'session never ends' are decided by exact quiescence; oracle: one well-formed reply per command line, MAIL/RCPT/DATA gating, store = deliveries to the recipients accepted since the latest accepted MAIL. cut: see clause. Non-trivial = last command was accepted (2xx) or delivered; distinct sequences.",
 		Assumptions: []string{"replies the statement leaves open are not pinned: the model derives its next state from the observed reply class", "net.Pipe stands for the TCP connection; testing/synctest's notion of durably blocked is trusted", "built with go1.26.8 (testing/synctest); the baseline suite runs on go1.23.5"},
+	},
+	"C13": {
+		ID: "C13", Level: "exploration",
+		Parts:       []part{{Name: "seq", Bin: "syn", Shards: 16}},
+		Rule:        "every sequence over a 59-element alphabet (USER/PASS/APOP with and without arguments, STAT, LIST/UIDL/DELE/RETR with n∈{1,2,3,0,-1,99,x,4294967297}, TOP variants, RSET, NOOP, QUIT, CAPA, garbage, empty line, plus external delivery and external deletion of message 1/2 as events) to the full-tree depth, then explicit-state search keyed on (POP3 model state, store, last command); mailbox initially holding 3/0/2 messages (one with dot-lines, one with bare LF and no final newline); mem and file; every prefix is also the 'connection dropped here' case: after each sequence the client closes without QUIT unless QUIT was the last command, and the store must equal before∖marked iff QUIT was accepted in TRANSACTION. Sessions run in synctest bubbles (exact 'no reply'/'extra reply'/'never ends'). Non-trivial = last step logged in, marked a message or mutated the store externally; distinct sequences.",
+		Assumptions: []string{"replies in the AUTHORIZATION state are not pinned beyond well-formedness; the model follows the observed status", "RETR/TOP of a message marked deleted or deleted externally is not pinned (outside the statement)", "built with go1.26.8 (testing/synctest)"},
 	},
 }
